@@ -7,6 +7,7 @@
    resume, kill, fail, late callbacks, cancellation, completions, ticks) — no bound. *)
 From Coq Require Import List String Bool ZArith.
 From Plumpy Require Import Val Mon PortModel Model Run LifeBook LifeSx LifeFx LifeSteps LifePtr.
+From Plumpy Require LifePaused.
 Import ListNotations.
 
 (* in every run, every step function / continuation that starts (EvStep) and every sample taken by code inside a
@@ -15,6 +16,15 @@ Theorem C05_no_step_while_paused :
   forall c es w, cf_fault c = None -> run c es = Some w -> flags_ok (trace w).
 Proof. exact no_step_while_paused. Qed.
 Print Assumptions C05_no_step_while_paused.
+
+(* while the process reports paused nothing is in flight and nothing is pending: in every run, between any two environment
+   events, paused => no step is in flight, no interrupt action is armed, neither a pause nor a kill is pending (so the pause that
+   took effect was the only request there was, and whatever was requested during the step has been carried out or withdrawn) *)
+Theorem C05_paused_means_quiescent :
+  forall c es w, cf_fault c = None -> run c es = Some w -> paused w <> None ->
+    stepping w = false /\ intr w = None /\ pausing w = None /\ killing w = None.
+Proof. exact LifePaused.paused_means_quiescent. Qed.
+Print Assumptions C05_paused_means_quiescent.
 
 (* pause() and play() (and kill()) requested between any two loop callbacks of any run return a result: they never
    raise *)
